@@ -137,6 +137,48 @@ def cmd_rerun(a):
         shutil.rmtree(s, ignore_errors=True)
 
 
+FAMILY = {
+    "conv": ["C04", "C05", "C06", "C07", "C08", "C09", "C10", "C12", "C18"],
+    "algebra": ["C01", "C02", "C03", "C11", "C13", "C15", "C19", "C20"],
+    "text": ["C13", "C15", "C16", "C17"],
+    "measure": ["C12", "C14", "C18"],
+}
+MEMBER = {
+    "C01": ["algebra"], "C02": ["algebra"], "C03": ["algebra", "measure"], "C04": ["conv"], "C05": ["conv"], "C06": ["conv"],
+    "C07": ["conv"], "C08": ["conv"], "C09": ["conv"], "C10": ["conv"], "C11": ["algebra", "conv"], "C12": ["conv", "measure"],
+    "C13": ["text", "algebra"], "C14": ["measure"], "C15": ["text", "algebra"], "C16": ["text"], "C17": ["text"],
+    "C18": ["measure", "conv"], "C19": ["algebra", "text"], "C20": ["algebra"],
+}
+
+
+def cmd_matrix(a):
+    """Run the related checks (same family) of other properties against a seed: which checks
+    catch which changes."""
+    for sid in ([a.sid] if a.sid != "all" else sorted(os.listdir(SEEDED))):
+        d = os.path.join(SEEDED, sid)
+        mp = os.path.join(d, "meta.json")
+        if not os.path.exists(mp):
+            continue
+        m = json.load(open(mp))
+        pid = m["breaks_property"]
+        related = []
+        for fam in MEMBER[pid]:
+            for c in FAMILY[fam]:
+                if c != pid and c not in related:
+                    related.append(c)
+        todo = [c for c in related if c not in m.get("matrix", {})]
+        if not todo:
+            continue
+        s, tree = scratch_with_patch(os.path.join(d, "patch.diff"))
+        try:
+            print(sid, flush=True)
+            res = run_checks(tree, todo, "quick", s)
+            m.setdefault("matrix", {}).update({c: {"exit": r["exit"], "first": r["first"][:1]} for c, r in res.items()})
+            json.dump(m, open(mp, "w"), indent=1, ensure_ascii=False)
+        finally:
+            shutil.rmtree(s, ignore_errors=True)
+
+
 def cmd_table(a):
     rows = []
     for sid in sorted(os.listdir(SEEDED)):
@@ -147,7 +189,8 @@ def cmd_table(a):
         det = [f"{k}({v['tier']})" for k, v in m.get("checks", {}).items() if v.get("exit") == 1]
         miss = [k for k, v in m.get("checks", {}).items() if v.get("exit") == 0]
         err = [k for k, v in m.get("checks", {}).items() if v.get("exit") not in (0, 1)]
-        rows.append((sid, m["breaks_property"], (m.get("summary") or "")[:90], ",".join(det) or "-", ",".join(miss) or "-", ",".join(err) or ""))
+        also = [k for k, v in m.get("matrix", {}).items() if v.get("exit") == 1]
+        rows.append((sid, m["breaks_property"], (m.get("summary") or "")[:90], ",".join(det) or "-", ",".join(miss) or "-", ",".join(err) or "", "also: " + (",".join(also) or "-")))
     for r in rows:
         print(" | ".join(r))
 
@@ -167,8 +210,10 @@ def main():
     r.add_argument("--checks")
     r.add_argument("--tier", default="quick")
     sub.add_parser("table")
+    mx = sub.add_parser("matrix")
+    mx.add_argument("sid")
     a = ap.parse_args()
-    {"eval": cmd_eval, "rerun": cmd_rerun, "table": cmd_table}[a.cmd](a)
+    {"eval": cmd_eval, "rerun": cmd_rerun, "table": cmd_table, "matrix": cmd_matrix}[a.cmd](a)
 
 
 if __name__ == "__main__":
